@@ -864,3 +864,40 @@ PROPS["C14"] = {
     "outside": "normalisation (integration), monotonicity and limits of the CDFs, Cdf' = Pdf, vector and matrix families, wrappers (log-transform, translation, mixtures), the remaining scalar families (Binomial, NegativeBinomial, Categorical, GEV, GeneralizedGamma, Delta), behaviour on the boundary of support / parameter region",
     "assumptions": ["floats read as reals for the formula obligations; log, lgamma, log1p uninterpreted by name"],
 }
+
+# ----------------------------------------------------------------------------- C15
+def c15_jobs(tier):
+    jobs = []
+    quick = tier == "quick"
+
+    def J(f, a, **kw):
+        jobs.append(dict({"pkg": ZZ, "func": f, "args": a, "mode": "real", "intmode": "int", "summarise_logadd": True}, **kw))
+    sizes = [(1, 1), (1, 3), (2, 1), (2, 2), (2, 3)] if quick else [(1, 1), (1, 3), (2, 1), (2, 2), (2, 3), (2, 4), (3, 2), (3, 3)]
+    for (m, n) in sizes:
+        zms = [0] if m == 1 else ([0, 0b0010, 0b0110] if m == 2 else [0, 0b000100010])
+        for zm in zms:
+            for smap in ((0,) if m == 1 else (0, 1)):
+                for final in ((0,) if m == 1 else (0, 1)):
+                    J("verif_C15_logpdf", [m, n, zm, smap, final], obl_cap_ms=60000)
+            J("verif_C15_marginals", [m, n, zm], obl_cap_ms=40000)
+            for final in ((0,) if m == 1 else (0, 1)):
+                J("verif_C15_viterbi", [m, n, zm, final])
+    return jobs
+
+
+PROPS["C15"] = {
+    "overlay": [RT, ("zzverif/c04.go", "zzverif/c04.go"), ("zzverif/c15.go", "zzverif/c15.go")],
+    "patterns": ["./zzverif"],
+    "mode": "real", "intmode": "int",
+    "jobs": c15_jobs,
+    "reach": ["logpdf", "marginals", "viterbi"],
+    "replay_tol": 1e-6,
+    "job_budget_ms": {"quick": 120000, "thorough": 900000},
+    "selftest_vars": [],
+    "bounds": {"quick": "generic.Hmm with m<=2 states and sequences of length n<=3: symbolic log initial / transition / emission values, zero-probability transitions as -Inf patterns, shared emission maps, final-state restriction; "
+                        "LogPdf = log of the sum over all m^n hidden paths, posterior marginal x likelihood = mass of the paths through the state, marginals sum to one, the Viterbi path has maximal joint probability; real interpretation, exp-homomorphism, LogAdd summarised",
+               "thorough": "m<=3, n<=4"},
+    "outside": "Posterior of state-set sequences, hmm_optimized, mixtures, hierarchical / constrained HMMs, data sets of several sequences, larger models",
+    "assumptions": ["LogAdd(a,b) is replaced by its summary log(exp a + exp b) (the C02 check discharges that summary against the method bodies)",
+                    "floats read as reals; exp/log handled by the exp-homomorphism over atoms E(x)"],
+}
